@@ -464,7 +464,16 @@ impl Run {
     }
 
     /// Full comparison of the observable staking state with the model (after every step).
+    /// The checks query the application (balances, delegations, rewards): a panic in there is the
+    /// simulator's, and a violation of "no valid sequence makes the simulator panic".
     fn check_state(&mut self, what: &str) {
+        let r = std::panic::catch_unwind(std::panic::AssertUnwindSafe(|| self.check_state_inner(what)));
+        if let Err(p) = r {
+            self.v(P14, "panic", format!("{}: a query through App panicked afterwards: {}", what, crate::harness::panic_message(&p)));
+        }
+    }
+
+    fn check_state_inner(&mut self, what: &str) {
         let nd = self.m.balances.len();
         for a in 0..nd {
             let got = self.balance(&self.addrs[a].clone());
